@@ -65,6 +65,8 @@ def _run(prog):
                 items = Tags.itemize() if g else libs[name].itemize()
                 o["itemize"] = [[str(n), int(i)] for n, i in items]
                 o["len"] = len(items) if g else len(libs[name])
+                items.reverse()               # the caller may edit the list it was given
+                del items[:1]
             except Exception as e:  # noqa: BLE001
                 o["itemize"] = [["!" + err(e), -1]]
                 o["len"] = -1
